@@ -3,6 +3,6 @@ CONSTANTS
   T <- TraceT
   StrictA = FALSE
   CheckCat = FALSE
-INVARIANTS NoLeak NoLeakInLedger
+INVARIANTS NoLeak NoLeakInLedger ColdResolves
 POSTCONDITION TraceAccepted
 CHECK_DEADLOCK FALSE
